@@ -170,13 +170,35 @@ def enrich(prog: dict, rng: np.random.Generator) -> dict:
         if (i["shape"], i["dtype"]) == (first["shape"], first["dtype"]) \
                 and i.get("data") == first.get("data") and rng.random() < 0.7:
             i["alias_of"] = first["name"]
+            if len(i["shape"]) == 2 and i["shape"][0] == i["shape"][1] and rng.random() < 0.5:
+                i["alias_T"] = True
     return prog
+
+
+def directed_views() -> list[dict]:
+    """m and m.T wrapped separately (one buffer, same start/shape/dtype,
+    different strides), used asymmetrically."""
+    out = []
+    for k, (n, body) in enumerate([
+            (3, [{"op": "sub", "a": 1, "b": 2}]),
+            (2, [{"op": "matmul", "a": 1, "b": 2}]),
+            (3, [{"op": "mul", "a": 1, "b": {"py": "int", "v": "2"}},
+                 {"op": "add", "a": 3, "b": 2}]),
+            (2, [{"op": "stack", "arrays": [1, 2], "axis": 0}])]):
+        out.append({"id": f"views{k}",
+                    "inputs": [{"name": "dwA", "shape": [n, n], "dtype": "f8", "kind": "dw"},
+                               {"name": "dwB", "shape": [n, n], "dtype": "f8", "kind": "dw",
+                                "alias_of": "dwA", "alias_T": True}],
+                    "calls": body, "outs": {"out0": 2 + len(body)},
+                    "pipeline": ["dedup_dw"]})
+        out.append(dict(out[-1], id=f"views{k}p", pipeline=["dedup_dw", "copy", "dedup"]))
+    return out
 
 
 def programs(tier: str) -> list[dict]:
     rng = np.random.default_rng(seed())
     n = 600 if tier == "quick" else 6000
-    progs = []
+    progs = directed_views()
     for k in range(n):
         p = progspace.random_program(rng, f"p{k}", int(rng.integers(2, 8)))
         p = enrich(p, rng)
@@ -219,6 +241,8 @@ def build(prog: dict) -> dict:
                 else rng.standard_normal(i["shape"]).astype(rp.DT[i["dtype"]])
             if i.get("alias_of") in data:
                 arr = data[i["alias_of"]][...]       # a view: same buffer, new object
+                if i.get("alias_T"):
+                    arr = arr.T      # same start, shape, dtype -- different strides
             data[i["name"]] = arr
     pb = rp.PtBackend(data)
     pb.run(prog)
